@@ -123,6 +123,14 @@ def replay_doc(ctx, doc, n):
             kw = dict(bins=0) if opt["edges"] == [] else dict(bins=list(opt["edges"]), normalize=opt["norm"])
             ctx.case(dict(fn=fn, tab=tab, **kw), nontrivial=ngroups > 1)
             got = prs.pcDelta_grouped(df, by, "CDR3B", **kw)
+            if np.size(got) and len(got) == len(res):
+                # rows are identified by their group label (the row order is not part of the property)
+                def keyof(lbl):
+                    parts = list(lbl) if isinstance(lbl, tuple) else [lbl]
+                    digits = [int("".join(ch for ch in str(x) if ch.isdigit())) for x in parts]
+                    return digits[0] * 10 + digits[1] if len(digits) == 2 else digits[0]
+                order = [list(got.index).index(l) for l in sorted(got.index, key=keyof)]
+                got = got.iloc[order]
             if not grid_ok(np.asarray(got.values if hasattr(got, "values") else got, dtype=float).reshape(len(res), -1) if np.size(got) else np.zeros((0, 0)), res):
                 viol("wrong_value" + ("/bins=0" if opt["edges"] == [] else ""), f"= {np.asarray(got).tolist()} want {res}")
         elif fn == "pcDelta_grouped_cross":
